@@ -152,7 +152,7 @@ def run(ctx):
     is_root = os.geteuid() == 0
 
     # ------------------------------------------------------------------ (a) recorded OS vs model call list
-    n_blocks = 6000 if ctx.thorough else 1200
+    n_blocks = 24000 if ctx.thorough else 1200
     wires = []
     for i in range(n_blocks):
         w = gen_block(rng, A, Message)
@@ -183,7 +183,7 @@ def run(ctx):
             ctx.disagree("set_file_attr calls", {"attribute_block": reqs[i][6:]}, model[i], impl)
 
     # ------------------------------------------------------------------ (b) + oracle: real session, twin files
-    n_ops = 1200 if ctx.thorough else 300
+    n_ops = 4000 if ctx.thorough else 300
     root = tempfile.mkdtemp(prefix="pv-c31-srv-")
     twin_root = tempfile.mkdtemp(prefix="pv-c31-twin-")
     op_reqs, op_meta, trunc_reqs, trunc_meta = [], [], [], []
